@@ -225,4 +225,6 @@ func C10(c *Ctx) {
 			}
 		}
 	}
+	c.searchFlagRule("C10-6")
+	c.positive("C10-6", "sticky-search-flag", func(pc *Ctx) { pc.searchFlagRule("C10-6") }, []string{"runner.Uniq:"}, []string{"runner.UniqOK"})
 }
